@@ -8,9 +8,8 @@ from harness import gen
 from harness.framework import Suite
 
 PID = "C17"
-READY = False
 LEAN_MODS = ["SwcVerif.Props.C17"]
-THEOREMS = []
+THEOREMS = ["C17.init_inv", "C17.greedy_step", "C17.step_inv", "C17.spanning", "C17.branching_limit", "C17.prim_step_partial"]
 TRUSTED = ["hand-written model Model/Mst.lean of the greedy loop (tied by the c17.mst correspondence: the parent array compared exactly; the model is fed "
            "the float64 distance matrix the code computes, as exact rationals)"]
 ASSUMPTIONS = ["np.linalg.norm / float64 rounding of the distance matrix and of `dis + bf*acc` (clouds whose best and second-best cost are closer than 1e-9 are rejected)",
